@@ -757,6 +757,39 @@ PROBES = {
 
 NT_SUBSET = "the node list is not the identity and an edge, mutation, site or individual is dropped"
 NT_UNION = "Y is non-empty and at least one of S, X is non-empty (something is added to a non-empty self)"
+# ------------------------------------------------------------------ deep pedigrees (counts beyond 32 / 64 bits)
+def enum_pedigree(tier, seed):
+    for G in ([20, 34, 40] if tier == "quick" else [20, 31, 32, 33, 34, 40, 63, 64, 65, 70]):
+        for s1, s2 in ((0, 1), (2, 3)):
+            yield dict(G=G, s1=s1, s2=s2)
+
+
+def run_pedigree(case, ctx):
+    """Split a tree sequence carrying a fully inbred pedigree (shared ancestral generations, one sample tip on each
+    side, the two parts with differently ordered individual tables) and re-join with union: the shared parts are
+    equal, so union must not refuse, and the result is the original up to canonical ordering."""
+    import tskit
+
+    from ._shapes import deep_pedigree_tables
+
+    G = case["G"]
+    full = deep_pedigree_tables(tskit, G, case["s1"])
+    other_full = deep_pedigree_tables(tskit, G, case["s2"])
+    anc = list(range(2 * G))
+    A = full.copy()
+    A.subset(anc + [2 * G], reorder_populations=False)
+    B = other_full.copy()
+    B.subset(anc + [2 * G + 1], reorder_populations=False)
+    ctx.nt(True)
+    u = A.copy()
+    u.union(B, node_mapping=anc + [-1], check_shared_equality=True, add_populations=False, record_provenance=False)
+    want = full.copy()
+    for t_ in (u, want):
+        t_.canonicalise()
+        t_.provenances.clear()
+    ctx.check(u.equals(want), "union.deep_pedigree", f"G={G}: subset-split and union differs from the original after canonicalise")
+
+
 SUBCHECKS = [
     SubCheck("C14.subset", run_subset, strategy=subset_case, quick=10000, thorough=300000, rule=NT_SUBSET,
              floors={"nodes:perm": 0.05, "nodes:sublist": 0.1, "nodes:subset_sorted": 0.03, "nodes:empty": 0.03,
@@ -775,4 +808,6 @@ SUBCHECKS = [
              rule="every case: out-of-range node ids, migrations, or an invalid node mapping must raise",
              floors={"kind:subset_oob": 0.03, "kind:subset_migrations": 0.03, "kind:union_bad_map": 0.02,
                      "kind:union_migrations_other": 0.03}),
+    SubCheck("C14.deep_pedigree", run_pedigree, enumerate=enum_pedigree, quick=1, thorough=1, shards=6,
+             rule="subset-split / union round trip on fully inbred pedigrees of 20-40 (thorough: up to 70) generations"),
 ]
